@@ -239,6 +239,7 @@ def job_locate(cfg):
 
     # every batch size from 1 to 4 (so that the number of points in the element also hits the coincidences n == dim, n == nPe ...)
     batches = [[0], [1], [2], [0, 1], [0, 3], [1, 2], [0, 1, 2], [0, 1, 3], [0, 1, 2, 3]]
+    val = None
     for idx in batches:
         lab = "+".join(labels[i] for i in idx)
         try:
@@ -260,6 +261,9 @@ def job_locate(cfg):
                                                               "batch": lab, "path_condition_size": len(pcs)})
     pcs = c.pc_since(mark)
     res.paths, res.path_conditions = 1, len(pcs)
+    if val is None:
+        res.notes.append(f"{key}: every batch is outside the claim (iterative inverse map)")
+        return res
     batch = val
     o = prove_abs_le(as_sym(batch[0, 0]) - field(list(pts[0][:dim])) - coef[0], TOL, pcs, "twin") if res.obligations else Outcome("cex")
     res.twin(f"{key} twin", o.status == "cex")
